@@ -12,9 +12,9 @@ for lookup type 6, through which the hook `gtab.VerifReadGsubSubtable` reaches t
 `SfntV.Total.Otl`.  The parser is a plain byte view (C17): the models take all bytes and the
 absolute position `pos` of the subtable; seeks never fail; the position is explicit.
 
-Go integer widths.  `inputGlyphCount-1` (nested.go:752, 1089) is computed in `uint16`; a count of 0
+Go integer widths.  `inputGlyphCount-1` (nested.go:748, 1085) is computed in `uint16`; a count of 0
 used to ask for 65535 entries (finding C02-zero-count) and is now refused by the zero check in
-front of it (nested.go:746, 1083).  The subtraction is still modelled exactly,
+front of it (nested.go:742, 1079).  The subtraction is still modelled exactly,
 `(n + 65535) % 65536`; `readCRuleOld` is the rule reader before the repair.
 `10*meta.LookupType+format` (gsub.go:41) is a `uint16` sum: `(60 + format) % 65536`; before the
 repair C02-dispatch-key a format word such as 11, 21 or 0xFFCF had the key of ANOTHER reader
@@ -98,15 +98,15 @@ structure RuleSites where
   nact : String
 
 def sites1 : RuleSites :=
-  ⟨"nested.go:738#readGIDSlice", "nested.go:742#ReadUint16", "nested.go:752#make([]glyph.ID, inputGlyphCount-1)",
-   "nested.go:754#ReadUint16", "nested.go:760#readGIDSlice", "nested.go:764#ReadUint16"⟩
+  ⟨"nested.go:734#readGIDSlice", "nested.go:738#ReadUint16", "nested.go:748#make([]glyph.ID, inputGlyphCount-1)",
+   "nested.go:750#ReadUint16", "nested.go:756#readGIDSlice", "nested.go:760#ReadUint16"⟩
 def sites2 : RuleSites :=
-  ⟨"nested.go:1075#ReadUint16Slice", "nested.go:1079#ReadUint16", "nested.go:1089#make([]uint16, inputGlyphCount-1)",
-   "nested.go:1091#ReadUint16", "nested.go:1096#ReadUint16Slice", "nested.go:1100#ReadUint16"⟩
+  ⟨"nested.go:1071#ReadUint16Slice", "nested.go:1075#ReadUint16", "nested.go:1085#make([]uint16, inputGlyphCount-1)",
+   "nested.go:1087#ReadUint16", "nested.go:1092#ReadUint16Slice", "nested.go:1096#ReadUint16"⟩
 
 /-- one ChainedSeqRule / ChainedClassSeqRule at position `q` (after the seek); one object is
 charged for `&ChainedSeqRule{…}`.  `fixed = true` is the code as it is now (repair C02-zero-count,
-nested.go:746 and 1083: `if inputGlyphCount == 0 { return invalid }`), `fixed = false` the code
+nested.go:742 and 1079: `if inputGlyphCount == 0 { return invalid }`), `fixed = false` the code
 before that repair, where `inputGlyphCount-1` wrapped in uint16 to 65535. -/
 def readCRuleG (fixed : Bool) (S : RuleSites) (b : Bytes) (q : Nat) (c : Cost) : Outcome (Rule × Cost) := do
   let (back, q, c) ← readSlice S.back b q c
@@ -138,7 +138,7 @@ def rulesLoop1 (b : Bytes) (base n : Nat) :
   | o :: os, j, size, acc, c => do
     let (r, c) ← readCRule sites1 b (base + o) c.tick
     if size > 0xFFFF then .err "invalid" else do
-    chkIdx "nested.go:784#rules[i][j]" j n
+    chkIdx "nested.go:780#rules[i][j]" j n
     rulesLoop1 b base n os (j + 1) (size + SfntV.Otl.Ctx.cruleLen r) (r :: acc) c
 
 /-- nested.go:703-782: `i` loop index, `n = len(rules)`, `total` the running size.  Returns
@@ -148,10 +148,10 @@ def setsLoop1 (b : Bytes) (pos n : Nat) :
   | [], _, total, acc, c => .ok (acc.reverse, total, c)
   | o :: os, i, total, acc, c =>
     if o = 0 then setsLoop1 b pos n os (i + 1) total (none :: acc) c.tick else do
-    let (offs, _, c) ← readSlice "nested.go:718#ReadUint16Slice" b (pos + o) c.tick
+    let (offs, _, c) ← readSlice "nested.go:714#ReadUint16Slice" b (pos + o) c.tick
     if total > 0xFFFF then .err "invalid" else do
-    let c ← mkSlice "nested.go:731#make([]*ChainedSeqRule, len(chainedSeqRuleOffsets))" offs.length c
-    chkIdx "nested.go:731#rules[i]" i n
+    let c ← mkSlice "nested.go:727#make([]*ChainedSeqRule, len(chainedSeqRuleOffsets))" offs.length c
+    chkIdx "nested.go:727#rules[i]" i n
     let (rules, size, c) ← rulesLoop1 b (pos + o) offs.length offs 0 (2 + 2 * offs.length) [] c
     setsLoop1 b pos n os (i + 1) (total + size) (some rules :: acc) c
 
@@ -175,19 +175,19 @@ def prune1 (cov : List (Nat × Nat)) (offs : List Nat) (c : Cost) :
     let keep := cov.filter (fun p => p.2 < offs.length)
     .ok (keep, offs, (c.tick (mapLen cov)).mem (mapLen cov - keep.length))
   else do
-    let o ← sliceTo "nested.go:700#chainedSeqRuleSetOffsets[:len(cov)]" offs cov.length
+    let o ← sliceTo "nested.go:696#chainedSeqRuleSetOffsets[:len(cov)]" offs cov.length
     pure (cov, o, c)
 
 /-- `readChainedSeqContext1(p, pos)`; the parser stands behind the format word -/
 def read1 (b : Bytes) (pos : Nat) : Outcome (Sub × Cost) := do
-  let covOff ← readU16 "nested.go:683#ReadUint16" b (pos + 2)
-  let (offs0, _, c) ← readSlice "nested.go:687#ReadUint16Slice" b (pos + 4) Cost.zero.tick
+  let covOff ← readU16 "nested.go:679#ReadUint16" b (pos + 2)
+  let (offs0, _, c) ← readSlice "nested.go:683#ReadUint16Slice" b (pos + 4) Cost.zero.tick
   let (cov0, cc) ← coverageRead b (pos + covOff)
   let (cov, offs, c) ← prune1 cov0 offs0 (Cost.add c cc)
   let n ← covEncodeLen cov
   let c := (c.tick (3 * mapLen cov)).mem (mapLen cov)        -- encInfo: `rev` and its three loops
   let total := 6 + 2 * offs.length + n
-  let c ← mkSlice "nested.go:706#make([][]*ChainedSeqRule, len(chainedSeqRuleSetOffsets))" offs.length c
+  let c ← mkSlice "nested.go:702#make([][]*ChainedSeqRule, len(chainedSeqRuleSetOffsets))" offs.length c
   let (sets, _, c) ← setsLoop1 b pos offs.length offs 0 total [] c
   pure (.c1 true cov sets, c)
 
@@ -199,7 +199,7 @@ def rulesLoop2 (b : Bytes) (base n : Nat) :
   | [], _, acc, c => .ok (acc.reverse, c)
   | o :: os, j, acc, c => do
     let (r, c) ← readCRule sites2 b (base + o) c.tick
-    chkIdx "nested.go:1109#rules[i][j]" j n
+    chkIdx "nested.go:1105#rules[i][j]" j n
     rulesLoop2 b base n os (j + 1) (r :: acc) c
 
 /-- nested.go:1039-1097 -/
@@ -207,9 +207,9 @@ def setsLoop2 (b : Bytes) (pos n : Nat) : List Nat → Nat → Sets → Cost →
   | [], _, acc, c => .ok (acc.reverse, c)
   | o :: os, i, acc, c =>
     if o = 0 then setsLoop2 b pos n os (i + 1) (none :: acc) c.tick else do
-    let (offs, _, c) ← readSlice "nested.go:1063#ReadUint16Slice" b (pos + o) c.tick
-    let c ← mkSlice "nested.go:1068#make([]*ChainedClassSeqRule, len(chainedClassSeqRuleOffsets))" offs.length c
-    chkIdx "nested.go:1068#rules[i]" i n
+    let (offs, _, c) ← readSlice "nested.go:1059#ReadUint16Slice" b (pos + o) c.tick
+    let c ← mkSlice "nested.go:1064#make([]*ChainedClassSeqRule, len(chainedClassSeqRuleOffsets))" offs.length c
+    chkIdx "nested.go:1064#rules[i]" i n
     let (rules, c) ← rulesLoop2 b (pos + o) offs.length offs 0 [] c
     setsLoop2 b pos n os (i + 1) (some rules :: acc) c
 
@@ -226,17 +226,17 @@ def rulesCount (sets : Sets) : Nat :=
 /-- nested.go:1034-1036: `if numClasses < len(offsets) { offsets = offsets[:numClasses] }` -/
 def trunc2 (offs0 : List Nat) (numClasses : Nat) : Outcome (List Nat) :=
   if numClasses < offs0.length
-  then sliceTo "nested.go:1048#chainedClassSeqRuleSetOffsets[:numClasses]" offs0 numClasses
+  then sliceTo "nested.go:1044#chainedClassSeqRuleSetOffsets[:numClasses]" offs0 numClasses
   else .ok offs0
 
 /-- `readChainedSeqContext2(p, pos)` -/
 def read2 (b : Bytes) (pos : Nat) : Outcome (Sub × Cost) := do
-  let buf ← readBytes "nested.go:1015#ReadBytes(8)" b (pos + 2) 8
-  let covOff ← w16 "nested.go:1019#buf[0],buf[1]" buf 0
-  let bOff ← w16 "nested.go:1020#buf[2],buf[3]" buf 2
-  let iOff ← w16 "nested.go:1021#buf[4],buf[5]" buf 4
-  let lOff ← w16 "nested.go:1022#buf[6],buf[7]" buf 6
-  let (offs0, _, c) ← readSlice "nested.go:1024#ReadUint16Slice" b (pos + 10) Cost.zero.tick
+  let buf ← readBytes "nested.go:1011#ReadBytes(8)" b (pos + 2) 8
+  let covOff ← w16 "nested.go:1015#buf[0],buf[1]" buf 0
+  let bOff ← w16 "nested.go:1016#buf[2],buf[3]" buf 2
+  let iOff ← w16 "nested.go:1017#buf[4],buf[5]" buf 4
+  let lOff ← w16 "nested.go:1018#buf[6],buf[7]" buf 6
+  let (offs0, _, c) ← readSlice "nested.go:1020#ReadUint16Slice" b (pos + 10) Cost.zero.tick
   let (cov, c1) ← coverageRead b (pos + covOff)
   let (cb, c2) ← classdefRead b (pos + bOff)
   let (ci, c3) ← classdefRead b (pos + iOff)
@@ -245,7 +245,7 @@ def read2 (b : Bytes) (pos : Nat) : Outcome (Sub × Cost) := do
   let numClasses := SfntV.Otl.Ctx.numClasses ci
   let c := c.tick (mapLen ci)                                 -- `NumClasses` walks the map
   let offs ← trunc2 offs0 numClasses
-  let c ← mkSlice "nested.go:1051#make([][]*ChainedClassSeqRule, len(chainedClassSeqRuleSetOffsets))" offs.length c
+  let c ← mkSlice "nested.go:1047#make([][]*ChainedClassSeqRule, len(chainedClassSeqRuleSetOffsets))" offs.length c
   let (sets, c) ← setsLoop2 b pos offs.length offs 0 [] c
   let n ← covEncodeLen (cov)
   let c := (c.tick (3 * mapLen cov)).mem (mapLen cov)
@@ -269,18 +269,18 @@ def covSetsLoop (site : String) (b : Bytes) (pos n : Nat) :
 
 /-- `readChainedSeqContext3(p, pos)` -/
 def read3 (b : Bytes) (pos : Nat) : Outcome (Sub × Cost) := do
-  let (bo, q, c) ← readSlice "nested.go:1378#ReadUint16Slice" b (pos + 2) Cost.zero
-  let (io, q, c) ← readSlice "nested.go:1382#ReadUint16Slice" b q c
-  let (lo, q, c) ← readSlice "nested.go:1386#ReadUint16Slice" b q c
+  let (bo, q, c) ← readSlice "nested.go:1374#ReadUint16Slice" b (pos + 2) Cost.zero
+  let (io, q, c) ← readSlice "nested.go:1378#ReadUint16Slice" b q c
+  let (lo, q, c) ← readSlice "nested.go:1382#ReadUint16Slice" b q c
   if io.length < 1 then .err "invalid" else do
-  let slc ← readU16 "nested.go:1397#ReadUint16" b q
+  let slc ← readU16 "nested.go:1393#ReadUint16" b q
   let (acts, c) ← readNested b (q + 2) slc c.tick
-  let c ← mkSlice "nested.go:1406#make([]coverage.Set, len(backtrackCoverageOffsets))" bo.length c
-  let (cb, c) ← covSetsLoop "nested.go:1408#backtrackCov[i]" b pos bo.length bo 0 [] c
-  let c ← mkSlice "nested.go:1414#make([]coverage.Set, len(inputCoverageOffsets))" io.length c
-  let (ci, c) ← covSetsLoop "nested.go:1416#inputCov[i]" b pos io.length io 0 [] c
-  let c ← mkSlice "nested.go:1422#make([]coverage.Set, len(lookaheadCoverageOffsets))" lo.length c
-  let (cl, c) ← covSetsLoop "nested.go:1424#lookaheadCov[i]" b pos lo.length lo 0 [] c
+  let c ← mkSlice "nested.go:1402#make([]coverage.Set, len(backtrackCoverageOffsets))" bo.length c
+  let (cb, c) ← covSetsLoop "nested.go:1404#backtrackCov[i]" b pos bo.length bo 0 [] c
+  let c ← mkSlice "nested.go:1410#make([]coverage.Set, len(inputCoverageOffsets))" io.length c
+  let (ci, c) ← covSetsLoop "nested.go:1412#inputCov[i]" b pos io.length io 0 [] c
+  let c ← mkSlice "nested.go:1418#make([]coverage.Set, len(lookaheadCoverageOffsets))" lo.length c
+  let (cl, c) ← covSetsLoop "nested.go:1420#lookaheadCov[i]" b pos lo.length lo 0 [] c
   pure (.c3 cb ci cl acts true, c)
 
 /-! ## the dispatch of `readGsubSubtable` for lookup type 6 -/
